@@ -68,6 +68,44 @@ def py_value(v):
     raise ValueError(v)
 
 
+def py_value_typed(v, h):
+    """the same abstract value as py_value, carried by another Python type chosen by the integer h: values reach the fields
+    from numpy arrays, pandas cells and arithmetic, not only as int/float/datetime literals. Only exact carriers are used
+    (an integral float for an integer, a float32 only when the double is a float32 value), so the expected behaviour is
+    that of py_value(v)."""
+    import numpy as np
+    import pandas as pd
+    x = py_value(v)
+    if v is None or v[0] in ("nat", "nan", "str"):
+        return x
+    k = h % 6
+    if v[0] == "int":
+        if k == 1 and -2 ** 63 <= x < 2 ** 63:
+            return np.int64(x)
+        if k == 2 and abs(x) < 2 ** 53:
+            return float(x)
+        if k == 3 and abs(x) < 2 ** 53:
+            return np.float64(x)
+        if k == 4 and -2 ** 31 <= x < 2 ** 31:
+            return np.int32(x)
+        if k == 5 and x in (0, 1):
+            return bool(x)
+        return x
+    if v[0] == "float":
+        if k == 1:
+            return np.float64(x)
+        if k == 2 and x == x and float(np.float32(x)) == x:
+            return np.float32(x)
+        if k == 3 and x == int(x) and abs(x) < 2 ** 53 and not (x == 0 and str(x).startswith("-")):
+            return int(x)
+        return x
+    if v[0] == "date":
+        if k in (1, 2):
+            return pd.Timestamp(x)
+        return x
+    return x
+
+
 def value_sx(v):
     if v is None:
         return []
